@@ -87,6 +87,16 @@ func Load(dir string, overlay map[string][]byte, patterns ...string) (*Exec, []*
 		}
 		id = last.NextObj
 	}
+	// os.Args is filled by the runtime, not by an initialiser: give the program a name
+	if osp := prog.ImportedPackage("os"); osp != nil {
+		if g, ok := osp.Members["Args"].(*ssa.Global); ok {
+			if gid, ok := ex.globals[g]; ok {
+				id++
+				ex.base[id] = &Object{V: Array{ex.strConst("/w/ecal")}}
+				ex.base[gid] = &Object{V: Slice{id, 0, 1, 1}}
+			}
+		}
+	}
 	for _, f := range ex.Findings {
 		fmt.Fprintf(os.Stderr, "init finding: %s %s %s\n", f.Kind, f.Msg, f.Where)
 	}
